@@ -5,6 +5,7 @@
 EXTENDS Integers, Sequences, FiniteSets, TLC, Json
 AtomsCallees == {"orthogonalize_cell", "standardize_cell", "Potential", "Potential.build", "FrozenPhonons", "FrozenPhonons.iterate",
                  "FrozenPhonons.iterate(per-element sigmas)", "FrozenPhonons.iterate(anisotropic sigmas)", "FrozenPhonons.iterate(per-atom sigmas)",
+                 "FrozenPhonons.iterate(zero sigmas)", "FrozenPhonons.iterate(one configuration)", "Potential.build(finite)", "Potential.project",
                  "StructureFactor", "BlochWaves", "PlaneWave.multislice", "Probe.multislice"}
 AtomsKinds == {"orthogonal", "hexagonal", "outside_cell", "offdiagonal_noise", "with_constraints", "non_pbc"}
 MeasurementTypes == {"Images", "DiffractionPatterns", "RealSpaceLineProfiles", "PolarMeasurements"}
